@@ -2,6 +2,7 @@ import AtreeModel.StorageOps
 import AtreeModel.Commit
 import AtreeProofs.StorageLemmas
 import AtreeProofs.CommitLemmas
+import AtreeProofs.PoolLemmas
 /-
   Further lemmas about the storage state machine (C03, C04, C08, C16):
   * `SlabID.lt` is a strict total order; `sortIDs` sorts;
@@ -268,5 +269,381 @@ theorem run_base_of_no_commit (c : Codec σ β) (ops : List (Op σ)) (s : St σ 
 theorem view_fresh (c : Codec σ β) (base : AList SlabID β) (alloc : AList Nat Nat) (id : SlabID) :
     (St.fresh base alloc : St σ β).view c id = (AList.find? base id).bind (c.dec id) := by
   simp [St.view, St.fresh]
+
+/-! ### `collectEncoded`: the result map of the encoder pool -/
+
+/-- the loop body of `collectEncoded` -/
+def collectStep (acc : Option (AList SlabID (Option β))) (r : SlabID × Option (Option β)) :
+    Option (AList SlabID (Option β)) :=
+  match acc, r.2 with
+  | none, _ => none
+  | some _, none => none
+  | some m, some data => some (AList.insert m r.1 data)
+
+theorem collectEncoded_eq (results : List (SlabID × Option (Option β))) :
+    collectEncoded results = results.foldl collectStep (some []) := rfl
+
+theorem collect_fold_none (l : List (SlabID × Option (Option β))) :
+    l.foldl collectStep none = none := by
+  induction l with
+  | nil => rfl
+  | cons r l ih => rw [List.foldl_cons]; exact ih
+
+theorem collect_none_of_mem (l : List (SlabID × Option (Option β))) (m0 : AList SlabID (Option β))
+    (h : ∃ r, r ∈ l ∧ r.2 = none) : l.foldl collectStep (some m0) = none := by
+  induction l generalizing m0 with
+  | nil => obtain ⟨r, hr, _⟩ := h; simp at hr
+  | cons a l ih =>
+    rw [List.foldl_cons]
+    cases ha : a.2 with
+    | none =>
+      have : collectStep (some m0) a = none := by simp [collectStep, ha]
+      rw [this, collect_fold_none]
+    | some data =>
+      have : collectStep (some m0) a = some (AList.insert m0 a.1 data) := by simp [collectStep, ha]
+      rw [this]
+      apply ih
+      obtain ⟨r, hr, hr2⟩ := h
+      rcases List.mem_cons.mp hr with rfl | hr
+      · rw [ha] at hr2; cases hr2
+      · exact ⟨r, hr, hr2⟩
+
+theorem collect_some (l : List (SlabID × Option (Option β))) (m0 : AList SlabID (Option β))
+    (h : ∀ r, r ∈ l → r.2 ≠ none) (hnd : (l.map (·.1)).Nodup) :
+    ∃ m, l.foldl collectStep (some m0) = some m ∧
+      (∀ id d, (id, some d) ∈ l → AList.find? m id = some d) ∧
+      (∀ id, id ∉ l.map (·.1) → AList.find? m id = AList.find? m0 id) := by
+  induction l generalizing m0 with
+  | nil => exact ⟨m0, rfl, fun id d hm => by simp at hm, fun _ _ => rfl⟩
+  | cons a l ih =>
+    rw [List.map_cons, List.nodup_cons] at hnd
+    rw [List.foldl_cons]
+    cases ha : a.2 with
+    | none => exact absurd ha (h a (List.mem_cons_self ..))
+    | some data =>
+      have : collectStep (some m0) a = some (AList.insert m0 a.1 data) := by simp [collectStep, ha]
+      rw [this]
+      obtain ⟨m, hm1, hm2, hm3⟩ := ih (AList.insert m0 a.1 data)
+        (fun r hr => h r (List.mem_cons_of_mem _ hr)) hnd.2
+      refine ⟨m, hm1, ?_, ?_⟩
+      · intro id d hmem
+        rcases List.mem_cons.mp hmem with heq | hmem
+        · have h1 : a.1 = id := by rw [← heq]
+          have h2 : a.2 = some d := by rw [← heq]
+          rw [ha] at h2
+          cases h2
+          rw [hm3 id (h1 ▸ hnd.1), AList.find?_insert]
+          simp [h1]
+        · exact hm2 id d hmem
+      · intro id hid
+        rw [List.map_cons, List.mem_cons, not_or] at hid
+        rw [hm3 id hid.2, AList.find?_insert]
+        have : ¬ a.1 = id := fun e => hid.1 e.symm
+        simp [this]
+
+/-! ### The pool-explicit apply loop against `commitKey` -/
+
+theorem anyEncodeFails_iff (c : Codec σ β) (s : St σ β) (keys : List SlabID) :
+    anyEncodeFails c s keys = true ↔ ∃ id, id ∈ keys ∧ encodeJob c s id = none := by
+  unfold anyEncodeFails
+  rw [List.any_eq_true]
+  have key : ∀ id, (match AList.find? s.deltas id with
+      | some (some v) => (c.enc v).isNone
+      | _ => false) = true ↔ encodeJob c s id = none := by
+    intro id
+    unfold encodeJob
+    cases AList.find? s.deltas id with
+    | none => simp
+    | some o =>
+      cases o with
+      | none => simp
+      | some v => cases c.enc v <;> simp
+  constructor
+  · rintro ⟨id, hid, h⟩; exact ⟨id, hid, (key id).mp h⟩
+  · rintro ⟨id, hid, h⟩; exact ⟨id, hid, (key id).mpr h⟩
+
+theorem commitKey_deltas_frame (c : Codec σ β) (fault : Nat → Bool) (r : CommitRes σ β)
+    (k j : SlabID) (hj : j ≠ k) :
+    AList.find? (commitKey c fault r k).st.deltas j = AList.find? r.st.deltas j := by
+  have hkj : ¬ k = j := fun e => hj e.symm
+  unfold commitKey
+  split
+  · rfl
+  · dsimp only
+    split
+    · split
+      · rfl
+      · simp [AList.find?_erase, hkj]
+    · split
+      · rfl
+      · simp [AList.find?_erase, hkj]
+    · split
+      · rfl
+      · split
+        · rfl
+        · simp [AList.find?_erase, hkj]
+
+/-- One iteration of the apply loop of the pool-explicit `FastCommit` is one iteration of the
+    sequential loop, provided the collected map holds what the encoder computed for this key and
+    the key's delta has not been touched. -/
+theorem commitKey_eq_applyEncoded (c : Codec σ β) (fault : Nat → Bool)
+    (enc : AList SlabID (Option β)) (s : St σ β) (r : CommitRes σ β) (k : SlabID) (d : Option β)
+    (hk : AList.find? r.st.deltas k = AList.find? s.deltas k)
+    (hd : encodeJob c s k = some d) (he : AList.find? enc k = some d) :
+    commitKey c fault r k = applyEncoded fault enc r k := by
+  unfold commitKey applyEncoded
+  unfold encodeJob at hd
+  cases herr : r.err with
+  | some e => rfl
+  | none =>
+    dsimp only
+    rw [hk, he]
+    cases hf : AList.find? s.deltas k with
+    | none =>
+      rw [hf] at hd
+      simp only [Option.some.injEq] at hd
+      subst hd
+      rfl
+    | some o =>
+      cases o with
+      | none =>
+        rw [hf] at hd
+        simp only [Option.some.injEq] at hd
+        subst hd
+        rfl
+      | some v =>
+        rw [hf] at hd
+        cases hb : c.enc v with
+        | none => simp [hb] at hd
+        | some b =>
+          simp only [hb, Option.map_some, Option.some.injEq] at hd
+          subst hd
+          simp [hb]
+
+theorem fold_commitKey_eq_applyEncoded (c : Codec σ β) (fault : Nat → Bool)
+    (enc : AList SlabID (Option β)) (s : St σ β) (ks : List SlabID) (hnd : ks.Nodup)
+    (r : CommitRes σ β)
+    (hk : ∀ k, k ∈ ks → AList.find? r.st.deltas k = AList.find? s.deltas k)
+    (henc : ∀ k, k ∈ ks → ∃ d, encodeJob c s k = some d ∧ AList.find? enc k = some d) :
+    ks.foldl (commitKey c fault) r = ks.foldl (applyEncoded fault enc) r := by
+  induction ks generalizing r with
+  | nil => rfl
+  | cons k ks ih =>
+    rw [List.nodup_cons] at hnd
+    obtain ⟨d, hd, he⟩ := henc k (List.mem_cons_self ..)
+    rw [List.foldl_cons, List.foldl_cons,
+      ← commitKey_eq_applyEncoded c fault enc s r k d (hk k (List.mem_cons_self ..)) hd he]
+    apply ih hnd.2
+    · intro j hj
+      have hjk : j ≠ k := fun e => hnd.1 (e ▸ hj)
+      rw [commitKey_deltas_frame c fault r k j hjk]
+      exact hk j (List.mem_cons_of_mem _ hj)
+    · intro j hj
+      exact henc j (List.mem_cons_of_mem _ hj)
+
+/-- `FastCommit` with the pool made explicit, for a given list of delivered results that is a
+    permutation of the (duplicate-free) job list paired with the encoder function. -/
+theorem fastCommitPool_eq_of_results (c : Codec σ β) (fault : Nat → Bool) (s : St σ β)
+    (hnd : (AList.keys s.deltas).Nodup) (results : List (SlabID × Option (Option β)))
+    (hperm : results.Perm ((sortedOwnedDeltaKeys s).map (fun j => (j, encodeJob c s j)))) :
+    (match collectEncoded results with
+      | none => ({ st := s, err := some .encoding, log := [], n := 0 } : CommitRes σ β)
+      | some enc => (sortedOwnedDeltaKeys s).foldl (applyEncoded fault enc)
+          { st := s, err := none, log := [], n := 0 }) = fastCommit c fault s := by
+  have hkeys := ownedKeys_sorted s hnd
+  have hmem : ∀ r, r ∈ results ↔ ∃ j, j ∈ sortedOwnedDeltaKeys s ∧ r = (j, encodeJob c s j) := by
+    intro r
+    rw [hperm.mem_iff, List.mem_map]
+    constructor
+    · rintro ⟨j, hj, rfl⟩; exact ⟨j, hj, rfl⟩
+    · rintro ⟨j, hj, rfl⟩; exact ⟨j, hj, rfl⟩
+  unfold fastCommit
+  dsimp only
+  cases hany : anyEncodeFails c s (sortedOwnedDeltaKeys s) with
+  | true =>
+    obtain ⟨id, hid, hnone⟩ := (anyEncodeFails_iff c s _).mp hany
+    have : collectEncoded results = none := by
+      rw [collectEncoded_eq]
+      apply collect_none_of_mem
+      exact ⟨(id, encodeJob c s id), (hmem _).mpr ⟨id, hid, rfl⟩, hnone⟩
+    rw [this]
+    simp
+  | false =>
+    have hno : ∀ id, id ∈ sortedOwnedDeltaKeys s → encodeJob c s id ≠ none := by
+      intro id hid hnone
+      have := (anyEncodeFails_iff c s _).mpr ⟨id, hid, hnone⟩
+      rw [hany] at this
+      cases this
+    have hnd' : (results.map (·.1)).Nodup := by
+      have hp := hperm.map (·.1)
+      rw [List.map_map] at hp
+      have hid : (List.map ((fun x => x.1) ∘ fun j => (j, encodeJob c s j)) (sortedOwnedDeltaKeys s))
+          = sortedOwnedDeltaKeys s := by
+        simp [Function.comp_def]
+      rw [hid] at hp
+      exact hp.nodup_iff.mpr hkeys.nodup
+    obtain ⟨m, hm1, hm2, _⟩ := collect_some results [] (by
+      intro r hr
+      obtain ⟨j, hj, rfl⟩ := (hmem r).mp hr
+      exact hno j hj) hnd'
+    rw [collectEncoded_eq, hm1]
+    simp only [Bool.false_eq_true, if_false]
+    unfold commitKeys
+    symm
+    apply fold_commitKey_eq_applyEncoded c fault m s _ hkeys.nodup
+    · intro k _; rfl
+    · intro k hk
+      cases hd : encodeJob c s k with
+      | none => exact absurd hd (hno k hk)
+      | some d =>
+        refine ⟨d, rfl, hm2 k d ?_⟩
+        rw [hmem]
+        exact ⟨k, hk, by rw [hd]⟩
+
+/-- The pool-explicit `FastCommit` IS the sequential `FastCommit` (all four components of the
+    result), for every worker count and every schedule under which the pool finishes. -/
+theorem fastCommitPool_eq (c : Codec σ β) (fault : Nat → Bool) (s : St σ β)
+    (hnd : (AList.keys s.deltas).Nodup) (workers : Nat) (sched : List Nat)
+    (hfin : Pool.finished (Pool.runSchedule (encodeJob c s)
+      (Pool.initState (sortedOwnedDeltaKeys s) (min workers (sortedOwnedDeltaKeys s).length)) sched) = true) :
+    fastCommitPool c fault s workers sched = fastCommit c fault s := by
+  have hperm := Pool.pinv_finished (encodeJob c s) (sortedOwnedDeltaKeys s) _
+    (Pool.pinv_run _ _ sched _ (Pool.pinv_init (encodeJob c s) (sortedOwnedDeltaKeys s)
+      (min workers (sortedOwnedDeltaKeys s).length))) hfin
+  exact fastCommitPool_eq_of_results c fault s hnd _ hperm
+
+/-! ### `preloadArrival` / `batchPreload` -/
+
+/-- cache `decode(base[id])` if the register exists (and decodes) -/
+def cacheDecoded (c : Codec σ β) (s : St σ β) (id : SlabID) : St σ β :=
+  match (AList.find? s.base id).bind (c.dec id) with
+  | some v => { s with cache := AList.insert s.cache id (some v) }
+  | none => s
+
+theorem preloadArrival_eq (c : Codec σ β) (s : St σ β) (l : List SlabID) :
+    preloadArrival c s l = l.foldl (cacheDecoded c) s := rfl
+
+theorem cacheDecoded_frame (c : Codec σ β) (s : St σ β) (id : SlabID) :
+    (cacheDecoded c s id).base = s.base ∧ (cacheDecoded c s id).deltas = s.deltas := by
+  unfold cacheDecoded
+  split <;> exact ⟨rfl, rfl⟩
+
+theorem cacheDecoded_cache (c : Codec σ β) (s : St σ β) (id j : SlabID) :
+    AList.find? (cacheDecoded c s id).cache j =
+      if id = j then (match s.committed c j with
+        | some v => some (some v)
+        | none => AList.find? s.cache j) else AList.find? s.cache j := by
+  unfold cacheDecoded St.committed
+  by_cases hj : id = j
+  · subst hj
+    simp only [if_true]
+    split <;> simp [AList.find?_insert]
+  · simp only [hj, if_false]
+    split
+    · simp [AList.find?_insert, hj]
+    · rfl
+
+theorem cacheDecoded_inv (c : Codec σ β) (s : St σ β) (hI : Inv c s) (id : SlabID) :
+    Inv c (cacheDecoded c s id) ∧ ∀ j, (cacheDecoded c s id).view c j = s.view c j := by
+  unfold cacheDecoded
+  split
+  · rename_i v hv
+    cases hb : AList.find? s.base id with
+    | none => simp [hb] at hv
+    | some b =>
+      have hv' : c.dec id b = some v := by simpa [hb] using hv
+      exact ⟨inv_cacheInsert c s hI id b v hb hv', view_cacheInsert c s hI id b v hb hv'⟩
+  · exact ⟨hI, fun _ => rfl⟩
+
+theorem cacheDecoded_fold (c : Codec σ β) (l : List SlabID) (s : St σ β) :
+    (l.foldl (cacheDecoded c) s).base = s.base ∧ (l.foldl (cacheDecoded c) s).deltas = s.deltas ∧
+    ∀ j, AList.find? (l.foldl (cacheDecoded c) s).cache j =
+      if j ∈ l then (match s.committed c j with
+        | some v => some (some v)
+        | none => AList.find? s.cache j) else AList.find? s.cache j := by
+  induction l generalizing s with
+  | nil => exact ⟨rfl, rfl, fun j => by simp⟩
+  | cons a l ih =>
+    obtain ⟨h1, h2, h3⟩ := ih (cacheDecoded c s a)
+    obtain ⟨f1, f2⟩ := cacheDecoded_frame c s a
+    rw [List.foldl_cons]
+    refine ⟨h1.trans f1, h2.trans f2, fun j => ?_⟩
+    have hcomm : (cacheDecoded c s a).committed c j = s.committed c j := by
+      simp [St.committed, f1]
+    rw [h3 j, hcomm, cacheDecoded_cache]
+    by_cases hjl : j ∈ l
+    · have : j ∈ a :: l := List.mem_cons_of_mem _ hjl
+      simp only [hjl, this, if_true]
+      cases hcm : s.committed c j with
+      | some v => rfl
+      | none =>
+        dsimp only
+        split <;> rfl
+    · by_cases haj : a = j
+      · subst haj
+        simp [hjl]
+      · have : ¬ j ∈ a :: l := by
+          rw [List.mem_cons, not_or]
+          exact ⟨fun e => haj e.symm, hjl⟩
+        simp [hjl, this, haj]
+
+theorem cacheDecoded_fold_inv (c : Codec σ β) (l : List SlabID) (s : St σ β) (hI : Inv c s) :
+    Inv c (l.foldl (cacheDecoded c) s) ∧ ∀ j, (l.foldl (cacheDecoded c) s).view c j = s.view c j := by
+  induction l generalizing s with
+  | nil => exact ⟨hI, fun _ => rfl⟩
+  | cons a l ih =>
+    obtain ⟨h1, h2⟩ := cacheDecoded_inv c s hI a
+    obtain ⟨g1, g2⟩ := ih _ h1
+    exact ⟨g1, fun j => (g2 j).trans (h2 j)⟩
+
+/-- When every register decodes, the sequential preload never fails and is the cache fold. -/
+theorem preloadOne_eq (c : Codec σ β) (s : St σ β)
+    (hdec : ∀ id b, AList.find? s.base id = some b → (c.dec id b).isSome) (id : SlabID) :
+    preloadOne c (s, none) id = (cacheDecoded c s id, none) := by
+  unfold preloadOne cacheDecoded
+  dsimp only
+  cases hb : AList.find? s.base id with
+  | none => rfl
+  | some b =>
+    have := hdec id b hb
+    cases hv : c.dec id b with
+    | none => simp [hv] at this
+    | some v => simp [hv]
+
+theorem batchPreload_eq (c : Codec σ β) (ids : List SlabID) (s : St σ β)
+    (hdec : ∀ id b, AList.find? s.base id = some b → (c.dec id b).isSome) :
+    batchPreload c s ids = (ids.foldl (cacheDecoded c) s, none) := by
+  unfold batchPreload
+  induction ids generalizing s with
+  | nil => rfl
+  | cons a l ih =>
+    rw [List.foldl_cons, List.foldl_cons, preloadOne_eq c s hdec a]
+    apply ih
+    intro id b hb
+    rw [(cacheDecoded_frame c s a).1] at hb
+    exact hdec id b hb
+
+/-! ### Point-wise effect of `store` / `remove` on the view and on the commit target -/
+
+theorem view_insertDelta (c : Codec σ β) (s : St σ β) (id : SlabID) (ov : Option σ) (j : SlabID) :
+    St.view c { s with deltas := AList.insert s.deltas id ov } j =
+      if id = j then ov else s.view c j := by
+  simp only [St.view, AList.find?_insert]
+  by_cases h : id = j <;> simp [h]
+
+theorem target_insertDelta (c : Codec σ β) (s : St σ β) (id : SlabID) (hid : id.isTemp = false)
+    (ov : Option σ) (j : SlabID) :
+    target c { s with deltas := AList.insert s.deltas id ov } j =
+      if id = j then ov.bind c.enc else target c s j := by
+  simp only [target, AList.find?_insert]
+  by_cases h : id = j
+  · subst h
+    cases ov <;> simp [hid]
+  · simp [h]
+
+/-- Target of a state with an empty write set. -/
+theorem target_of_no_deltas (c : Codec σ β) (s : St σ β) (h : s.deltas = []) (id : SlabID) :
+    target c s id = AList.find? s.base id := by
+  simp [target, h]
 
 end Atree
